@@ -15,7 +15,7 @@
 (*    form, operands untouched, unnamed registers untouched).              *)
 (* The trace is accepted iff TLC consumes every event and bad = {}.        *)
 (***************************************************************************)
-EXTENDS DecGob, Chars, Json, TLC, IOUtils
+EXTENDS DecContext, Chars, Json, TLC, IOUtils
 
 DW == 19                                  \* digits per word of the real library (64-bit build)
 DB == Pow10(DW)
@@ -31,9 +31,10 @@ VARIABLES l,      \* position in T
           dgs,    \* register name -> digest of its last observation
           bad,    \* set of <<event index, property id, kind>>
           cov,    \* coverage counters: branch tag -> number of events
-          vres    \* C10: instance id -> outcome of the first variant of that operation instance
+          vres,   \* C10: instance id -> outcome of the first variant of that operation instance
+          ctxs    \* C19: context name -> [prec, mode, err]; err (the latch) is inferred, never logged
 
-vars == <<l, regs, dgs, bad, cov, vres>>
+vars == <<l, regs, dgs, bad, cov, vres, ctxs>>
 
 Ev == T[l]
 
@@ -142,6 +143,7 @@ Skip == \E r \in Named : r \in DOMAIN regs /\ regs[r].form = "bad"
 StepDev(w, tags, extra, dev) ==
   /\ l' = l + 1
   /\ vres' = IF Skip THEN vres ELSE VariantNext
+  /\ ctxs' = ctxs
   /\ bad' = IF Skip THEN bad \cup Tag(Common(Named), "")
             ELSE bad \cup Tag(MisZ(w) \cup extra, dev) \cup Tag(Common({Ev.z}) \cup VariantBad, "")
   /\ cov' = IF Skip THEN Bump({"skipped"}) ELSE Bump({Ev.op} \cup tags)
@@ -155,6 +157,7 @@ Step(w, tags) == StepX(w, tags, {})
 Observe(ok, pid, tags) ==
   /\ l' = l + 1
   /\ vres' = vres
+  /\ ctxs' = ctxs
   /\ bad' = IF Skip THEN bad \cup Tag(Common(Named), "")
             ELSE bad \cup Tag((IF Ev.out # "ok" THEN {<<l, "C04", "panic">>} ELSE IF ok THEN {} ELSE {<<l, pid, "ret">>})
                            \cup Common({}), "")
@@ -165,6 +168,7 @@ Observe(ok, pid, tags) ==
 ObserveDev(ok, pid, tags, dev) ==
   /\ l' = l + 1
   /\ vres' = vres
+  /\ ctxs' = ctxs
   /\ bad' = IF Skip THEN bad \cup Tag(Common(Named), "")
             ELSE bad \cup Tag(IF Ev.out # "ok" THEN {<<l, "C04", "panic">>} ELSE IF ok THEN {} ELSE {<<l, pid, "ret">>}, dev)
                      \cup Tag(Common({}), "")
@@ -183,6 +187,7 @@ TReset ==
   /\ IsEv("Reset")
   /\ l' = l + 1
   /\ vres' = <<>>
+  /\ ctxs' = [c \in {Ev.ctxs[i] : i \in 1..Len(Ev.ctxs)} |-> CtxInit(0, 0)]
   /\ regs' = [r \in Named |-> Got(r)]
   /\ dgs' = Ev.dg
   /\ bad' = bad \cup Tag(IF \A r \in Named : Canonical(Ev.post[r]) /\ Got(r) = ZeroValue THEN {} ELSE {<<l, "C08", "zerovalue">>}, "")
@@ -190,9 +195,10 @@ TReset ==
 
 (* any call that panicked with something else than ErrNaN: "no operation on valid arguments panics with anything else" *)
 TPanic ==
-  /\ l <= Len(T) /\ Ev.out = "panic"
+  /\ l <= Len(T) /\ Ev.out = "panic" /\ Ev.op # "Ctx.AddNilY"
   /\ l' = l + 1
   /\ vres' = vres
+  /\ ctxs' = ctxs
   /\ bad' = bad \cup Tag({<<l, pp, "panic">> : pp \in {"C04"} \cup HomePid(Ev.op)} \cup Common(Named), "")
   /\ cov' = Bump({"panic"})
   /\ regs' = Adopt
@@ -203,6 +209,7 @@ TLoad ==
   /\ IsEv("Load")
   /\ l' = l + 1
   /\ vres' = vres
+  /\ ctxs' = ctxs
   /\ bad' = bad \cup Tag((IF Ev.out # "ok" THEN {<<l, "C04", "panic">>} ELSE {}) \cup Common({Ev.z}), "")
   /\ cov' = Bump({"Load"})
   /\ regs' = Adopt
@@ -386,6 +393,98 @@ TGobStream ==
          w == IF z.prec = 0 THEN Outcome("ok", x, {}, {"C17"}) ELSE OkFree(SetLike(x.neg, x, z.prec, z.mode), z.prec, z.mode, {"C17"}, {"acc"})
      IN StepX(w, {"GobStream"}, IF Ev.out = "ok" /\ Ev.ret.err THEN {<<l, "C17", "rejected">>} ELSE {})
 
+(***************************************************************************)
+(* package context (C19)                                                   *)
+(***************************************************************************)
+Ctx == ctxs[Ev.c]
+CtxObsOK(c) == Ev.ret.cprec = c.prec /\ Ev.ret.cmode = c.mode      \* the context's observable attributes
+
+(* the register the operation writes, rewritten: operands that ARE the receiver see the applied receiver *)
+CtxArg(r, zA) == IF r = Ev.z THEN zA ELSE Pre(r)
+
+(* a context operation with receiver Ev.z; mk(zA) is the Decimal-level outcome on the applied receiver zA *)
+CtxStep(w, aliased, tag) ==
+  LET c == Ctx
+  IN /\ l' = l + 1
+     /\ vres' = vres
+     /\ regs' = Adopt
+     /\ dgs' = Ev.dg
+     /\ IF Skip THEN /\ bad' = bad \cup Tag(Common(Named), "") /\ ctxs' = ctxs /\ cov' = Bump({"skipped"})
+        ELSE IF c.err
+        THEN \* latched: the operation is a no-op and returns its receiver
+             /\ bad' = bad \cup Tag((IF Ev.out = "ok" /\ Ev.ret.same /\ CtxObsOK(c) THEN {} ELSE {<<l, "C19", "latched-ret">>})
+                                    \cup (IF \A r \in Named : Canonical(Ev.post[r]) => Got(r) = regs[r] THEN {} ELSE {<<l, "C19", "latched-modified">>})
+                                    \cup Common(Named), "")
+             /\ ctxs' = ctxs
+             /\ cov' = Bump({Ev.op, Ev.op \o ":latched"})
+        ELSE \* a NaN is caught (the call returns normally) and latched; value free when the receiver is an operand (documented caveat)
+             LET w1 == IF aliased THEN [w EXCEPT !.free = w.free \cup {"value", "acc"}] ELSE [w EXCEPT !.pid = {"C19"}]
+                 got == IF Ev.out = "ok" /\ w.out = "nan" THEN [w1 EXCEPT !.out = "ok", !.free = {"value", "acc"}] ELSE w1
+             IN /\ bad' = bad \cup Tag({<<t[1], IF t[2] \in {"C09", "C10"} THEN "C19" ELSE t[2], t[3]>> : t \in MisZ(got)} \cup (IF Ev.out = "ok" /\ Ev.ret.same /\ CtxObsOK(c) THEN {} ELSE {<<l, "C19", "ret">>})
+                                       \cup Common({Ev.z}), "")
+                /\ ctxs' = [ctxs EXCEPT ![Ev.c].err = (w.out = "nan")]
+                /\ cov' = Bump({Ev.op, Ev.op \o ":" \o tag, Ev.op \o (IF w.out = "nan" THEN ":nan" ELSE ":ok"), Ev.op \o (IF aliased THEN ":aliased" ELSE ":distinct")})
+
+IsCtx(op) == IsEv("Ctx." \o op)
+TCtxBin(op, F(_, _, _)) ==
+  /\ IsCtx(op)
+  /\ LET zA == CtxApply(Ctx, Pre(Ev.z))
+     IN CtxStep(F(zA, CtxArg(Ev.x, zA), CtxArg(Ev.y, zA)), Ev.z \in {Ev.x, Ev.y}, "bin")
+TCtxAdd == TCtxBin("Add", OpAdd)
+TCtxSub == TCtxBin("Sub", OpSub)
+TCtxMul == TCtxBin("Mul", OpMul)
+TCtxQuo == TCtxBin("Quo", OpQuo)
+TCtxFMA ==
+  /\ IsCtx("FMA")
+  /\ LET zA == CtxApply(Ctx, Pre(Ev.z))
+     IN CtxStep(OpFMA(zA, CtxArg(Ev.x, zA), CtxArg(Ev.y, zA), CtxArg(Ev.u, zA)), Ev.z \in {Ev.x, Ev.y, Ev.u}, "fma")
+TCtxUn(op, F(_, _)) ==
+  /\ IsCtx(op)
+  /\ LET zA == CtxApply(Ctx, Pre(Ev.z)) IN CtxStep(F(zA, CtxArg(Ev.x, zA)), Ev.z = Ev.x, "un")
+TCtxSqrt == TCtxUn("Sqrt", OpSqrt)
+TCtxNeg == TCtxUn("Neg", OpNeg)
+TCtxAbs == TCtxUn("Abs", OpAbs)
+(* Set: apply(z.Copy(x)): x's value rounded to the context *)
+TCtxSet ==
+  /\ IsCtx("Set")
+  /\ LET d == CtxSet(Ctx, Pre(Ev.x)) IN CtxStep(Outcome("ok", d, {}, {"C19"}), FALSE, "set")
+
+(* operations on the context itself *)
+CtxSelf(c1, ok, tag) ==
+  /\ l' = l + 1 /\ vres' = vres /\ regs' = Adopt /\ dgs' = Ev.dg
+  /\ ctxs' = [k \in DOMAIN ctxs \cup {Ev.c} |-> IF k = Ev.c THEN c1 ELSE ctxs[k]]
+  /\ bad' = bad \cup Tag((IF Ev.out = "ok" /\ ok /\ Ev.ret.cprec = c1.prec /\ Ev.ret.cmode = c1.mode THEN {} ELSE {<<l, "C19", "ctx">>}) \cup Common({}), "")
+  /\ cov' = Bump({Ev.op} \cup tag)
+TCtxNew == IsCtx("New") /\ CtxSelf(CtxInit(Ev.p, Ev.m), TRUE, {})
+TCtxSetPrec == IsCtx("SetPrec") /\ CtxSelf([Ctx EXCEPT !.prec = CtxInit(Ev.p, 0).prec], TRUE, {})
+TCtxSetMode == IsCtx("SetMode") /\ CtxSelf([Ctx EXCEPT !.mode = Ev.m], TRUE, {})
+(* Err returns the recorded error exactly once and re-arms the context *)
+TCtxErr == IsCtx("Err") /\ CtxSelf([Ctx EXCEPT !.err = FALSE], Ev.ret.err = Ctx.err /\ (Ctx.err => Ev.ret.isnan), {"Ctx.Err:" \o ToString(Ctx.err)})
+
+(* factories: c.New().SetX(...) - not affected by the latch *)
+CtxFactory(w) ==
+  /\ l' = l + 1 /\ vres' = vres /\ regs' = Adopt /\ dgs' = Ev.dg /\ ctxs' = ctxs
+  /\ bad' = bad \cup Tag(MisZ([w EXCEPT !.pid = {"C19"}]) \cup Common({Ev.z}), "")
+  /\ cov' = Bump({Ev.op})
+TCtxNewDec == IsCtx("NewDec") /\ CtxFactory(Outcome("ok", CtxNew(Ctx), {}, {"C19"}))
+TCtxNewInt64 == IsCtx("NewInt64") /\ LET v == IFromStr(Ev.i) IN CtxFactory(OpSetInt64(CtxNew(Ctx), v.neg, v.mag))
+TCtxNewUint64 == IsCtx("NewUint64") /\ CtxFactory(OpSetUint64(CtxNew(Ctx), FromStr(Ev.i)))
+TCtxNewInt == IsCtx("NewInt") /\ LET v == IFromStr(Ev.i) IN CtxFactory(OpSetInt(CtxNew(Ctx), v.neg, v.mag, Ctx.prec))
+TCtxNewRat ==
+  /\ IsCtx("NewRat")
+  /\ LET n == IFromStr(Ev.num)  d == FromStr(Ev.den)  qr == DivMod(n.mag, d)
+     IN CtxFactory(IF qr[2] = Zero THEN OpSetInt(CtxNew(Ctx), n.neg, qr[1], Ctx.prec) ELSE OpSetRat(CtxNew(Ctx), n.neg, n.mag, d, Ctx.prec))
+(* a panic that is not an ErrNaN (nil operand) must propagate out of the context and must not be latched *)
+TCtxNil ==
+  /\ l <= Len(T) /\ Ev.op = "Ctx.AddNilY"
+  /\ l' = l + 1 /\ vres' = vres /\ regs' = Adopt /\ dgs' = Ev.dg
+  /\ ctxs' = ctxs
+  /\ bad' = bad \cup Tag(IF Ctx.err THEN (IF Ev.out = "ok" THEN {} ELSE {<<l, "C19", "latched-ret">>})
+                          ELSE (IF Ev.out = "panic" THEN {} ELSE {<<l, "C19", "swallowed-panic">>}), "")
+  /\ cov' = Bump({"Ctx.AddNilY:" \o Ev.out})
+CtxNext == TCtxAdd \/ TCtxSub \/ TCtxMul \/ TCtxQuo \/ TCtxFMA \/ TCtxSqrt \/ TCtxNeg \/ TCtxAbs \/ TCtxSet \/ TCtxNew \/ TCtxSetPrec
+           \/ TCtxSetMode \/ TCtxErr \/ TCtxNewDec \/ TCtxNewInt64 \/ TCtxNewUint64 \/ TCtxNewInt \/ TCtxNewRat \/ TCtxNil
+
 TSetMantExp == IsEv("SetMantExp") /\ Step(OpSetMantExp(Pre(Ev.z), Pre(Ev.x), IFromStr(Ev.e)), {})
 TMantExp ==
   /\ IsEv("MantExp")
@@ -433,8 +532,8 @@ TPreds14 ==
 CoreNext == TReset \/ TPanic \/ TLoad \/ TAdd \/ TSub \/ TMul \/ TQuo \/ TFMA \/ TSqrt \/ TNeg \/ TAbs \/ TSet \/ TCopy \/ TSetPrec \/ TSetMode
             \/ TSetInf \/ TNew \/ TSetInt64 \/ TSetUint64 \/ TNewDecimal \/ TSetInt \/ TSetRat \/ TInt64 \/ TUint64 \/ TInt \/ TRat \/ TPreds14 \/ TSetFloat64 \/ TSetFloat \/ TFloat64 \/ TFloat32 \/ TFloat \/ TGobEncode \/ TGobDecode \/ TGobMutate \/ TGobRoundTrip \/ TGobStream \/ TSetMantExp \/ TMantExp \/ TSetBitsExp \/ TSetBitsExpSelf \/ TBitsExp \/ TCmp \/ TPreds
 
-TraceInit == l = 1 /\ regs = <<>> /\ dgs = <<>> /\ bad = {} /\ cov = <<>> /\ vres = <<>>
-TraceNext == CoreNext
+TraceInit == l = 1 /\ regs = <<>> /\ dgs = <<>> /\ bad = {} /\ cov = <<>> /\ vres = <<>> /\ ctxs = <<>>
+TraceNext == CoreNext \/ CtxNext
 TraceSpec == TraceInit /\ [][TraceNext]_vars
 
 (* the verdict, printed once when the whole trace has been consumed *)
